@@ -21,6 +21,20 @@ CLAIMED = {
         "note": "floats as reals; labels from a concrete list; sx engine/loader and the reference model are trusted; counterexamples "
                 "are replayed on the plain library before being reported",
     },
+    "C01": {
+        "category": "other",
+        "text": "The real Series._impedance, Parallel._impedance, _calculate_impedances, Connection.get_impedances and Circuit.__init__/"
+                "get_impedances are executed symbolically over stub leaves whose impedance at each frequency index is a symbolic non-zero "
+                "complex number, 0 or +inf (chosen by solver-driven exploration), with symbolic positive frequencies. On every feasible "
+                "path the result is compared with the point-wise series/parallel law written directly over the leaf variables (open branch "
+                "contributes nothing, shorted branch shorts the connection, all-open is open / InfiniteImpedance at the API); equality of the "
+                "complex rational functions is decided by normalisation + z3. Also: array vs one-frequency-at-a-time evaluation, the three "
+                "dispatch branches (element, container, connection), Circuit(Series|Parallel|Element|list). Exhaustive for every nest of "
+                "<=3 (4) leaves, depth <=2 (3), 2 (3) frequencies.",
+        "design_ref": "DESIGN.md section 4, C01",
+        "note": "leaves opaque (element formulas are C02); a branch is open at all frequencies or none (mixed: result, if any, must obey the law; "
+                "only InfiniteImpedance may be raised); admittances that cancel exactly are cut away; floats as reals",
+    },
     "C02": {
         "category": "translation_validation",
         "text": "For every registered non-container element the real _impedance (numpy code on the sx shim) and the real to_sympy() "
